@@ -26,7 +26,7 @@ package sqlite
 //@ ensures err != nil ==> result == nil
 
 //@ func (*SqliteStoreWorker).createPromiseAndTask
-//@ props C16 C17 C01 C03 C06 C08 C02
+//@ props C16 C17 C01 C03 C06 C08 C02 C20
 //@ nopanic C13
 //@ ghostdb store
 //@ stmt promiseStmt PROMISE_INSERT_STATEMENT
@@ -42,7 +42,7 @@ package sqlite
 //@ ensures err != nil ==> result == nil
 
 //@ func (*SqliteStoreWorker).updatePromise
-//@ props C16 C17 C01 C03 C04 C02
+//@ props C16 C17 C01 C03 C04 C02 C20
 //@ nopanic C13
 //@ ghostdb store
 //@ stmt stmt PROMISE_UPDATE_STATEMENT
@@ -54,7 +54,7 @@ package sqlite
 //@ ensures err != nil ==> result == nil
 
 //@ func (*SqliteStoreWorker).createCallback
-//@ props C16 C17 C05 C02
+//@ props C16 C17 C05 C02 C20
 //@ nopanic C13
 //@ ghostdb store
 //@ stmt stmt CALLBACK_INSERT_STATEMENT
@@ -65,7 +65,7 @@ package sqlite
 //@ ensures err != nil ==> result == nil
 
 //@ func (*SqliteStoreWorker).deleteCallbacks
-//@ props C16 C17 C05 C02
+//@ props C16 C17 C05 C02 C20
 //@ nopanic C13
 //@ ghostdb store
 //@ stmt stmt CALLBACK_DELETE_STATEMENT
@@ -75,7 +75,7 @@ package sqlite
 //@ ensures err != nil ==> result == nil
 
 //@ func (*SqliteStoreWorker).readSchedule
-//@ props C16 C17 C10 C02
+//@ props C16 C17 C10 C02 C20
 //@ nopanic C13
 //@ ghostdb store
 //@ requires cmd != nil
@@ -84,7 +84,7 @@ package sqlite
 //@ ensures err != nil ==> result == nil
 
 //@ func (*SqliteStoreWorker).createSchedule
-//@ props C16 C17 C10 C02
+//@ props C16 C17 C10 C02 C20
 //@ nopanic C13
 //@ ghostdb store
 //@ stmt stmt SCHEDULE_INSERT_STATEMENT
@@ -95,7 +95,7 @@ package sqlite
 //@ ensures err != nil ==> result == nil
 
 //@ func (*SqliteStoreWorker).updateSchedule
-//@ props C16 C17 C10 C02
+//@ props C16 C17 C10 C02 C20
 //@ nopanic C13
 //@ ghostdb store
 //@ stmt stmt SCHEDULE_UPDATE_STATEMENT
@@ -105,7 +105,7 @@ package sqlite
 //@ ensures err != nil ==> result == nil
 
 //@ func (*SqliteStoreWorker).deleteSchedule
-//@ props C16 C17 C10 C02
+//@ props C16 C17 C10 C02 C20
 //@ nopanic C13
 //@ ghostdb store
 //@ stmt stmt SCHEDULE_DELETE_STATEMENT
@@ -115,7 +115,7 @@ package sqlite
 //@ ensures err != nil ==> result == nil
 
 //@ func (*SqliteStoreWorker).readLock
-//@ props C16 C17 C09 C02
+//@ props C16 C17 C09 C02 C20
 //@ nopanic C13
 //@ ghostdb store
 //@ requires cmd != nil
@@ -124,7 +124,7 @@ package sqlite
 //@ ensures err != nil ==> result == nil
 
 //@ func (*SqliteStoreWorker).acquireLock
-//@ props C16 C17 C09 C02
+//@ props C16 C17 C09 C02 C20
 //@ nopanic C13
 //@ ghostdb store
 //@ stmt stmt LOCK_ACQUIRE_STATEMENT
@@ -134,7 +134,7 @@ package sqlite
 //@ ensures err != nil ==> result == nil
 
 //@ func (*SqliteStoreWorker).releaseLock
-//@ props C16 C17 C09 C02
+//@ props C16 C17 C09 C02 C20
 //@ nopanic C13
 //@ ghostdb store
 //@ stmt stmt LOCK_RELEASE_STATEMENT
@@ -144,7 +144,7 @@ package sqlite
 //@ ensures err != nil ==> result == nil
 
 //@ func (*SqliteStoreWorker).hearbeatLocks
-//@ props C16 C17 C09 C02
+//@ props C16 C17 C09 C02 C20
 //@ nopanic C13
 //@ ghostdb store
 //@ stmt stmt LOCK_HEARTBEAT_STATEMENT
@@ -154,7 +154,7 @@ package sqlite
 //@ ensures err != nil ==> result == nil
 
 //@ func (*SqliteStoreWorker).timeoutLocks
-//@ props C16 C17 C09 C02
+//@ props C16 C17 C09 C02 C20
 //@ nopanic C13
 //@ ghostdb store
 //@ stmt stmt LOCK_TIMEOUT_STATEMENT
@@ -164,7 +164,7 @@ package sqlite
 //@ ensures err != nil ==> result == nil
 
 //@ func (*SqliteStoreWorker).readTask
-//@ props C16 C17 C07 C02
+//@ props C16 C17 C07 C02 C20
 //@ nopanic C13
 //@ ghostdb store
 //@ requires cmd != nil
@@ -173,7 +173,7 @@ package sqlite
 //@ ensures err != nil ==> result == nil
 
 //@ func (*SqliteStoreWorker).createTask
-//@ props C16 C17 C08 C02
+//@ props C16 C17 C08 C02 C20
 //@ nopanic C13
 //@ ghostdb store
 //@ stmt stmt TASK_INSERT_STATEMENT
@@ -186,7 +186,7 @@ package sqlite
 //@ ensures err != nil ==> result == nil
 
 //@ func (*SqliteStoreWorker).createTasks
-//@ props C16 C17 C05 C08 C02
+//@ props C16 C17 C05 C08 C02 C20
 //@ nopanic C13
 //@ ghostdb store
 //@ stmt stmt TASK_INSERT_ALL_STATEMENT
@@ -196,7 +196,7 @@ package sqlite
 //@ ensures err != nil ==> result == nil
 
 //@ func (*SqliteStoreWorker).completeTasks
-//@ props C16 C17 C05 C08 C02
+//@ props C16 C17 C05 C08 C02 C20
 //@ nopanic C13
 //@ ghostdb store
 //@ stmt stmt TASK_COMPLETE_BY_ROOT_ID_STATEMENT
@@ -206,7 +206,7 @@ package sqlite
 //@ ensures err != nil ==> result == nil
 
 //@ func (*SqliteStoreWorker).updateTask
-//@ props C16 C17 C07 C08 C02
+//@ props C16 C17 C07 C08 C02 C20
 //@ nopanic C13
 //@ ghostdb store
 //@ stmt stmt TASK_UPDATE_STATEMENT
@@ -218,7 +218,7 @@ package sqlite
 //@ loop 1 invariant rangeindex + 1 <= len(cmd.CurrentStates) && currentStates == maskprefix(cmd.CurrentStates, rangeindex + 1)
 
 //@ func (*SqliteStoreWorker).heartbeatTasks
-//@ props C16 C17 C07 C02
+//@ props C16 C17 C07 C02 C20
 //@ nopanic C13
 //@ ghostdb store
 //@ stmt stmt TASK_HEARTBEAT_STATEMENT
@@ -256,7 +256,7 @@ package sqlite
 //@ ensures err != nil ==> txlog() == "" || txlog() == "begin,perform-err,rolledback" || txlog() == "begin,perform-err,rollback-failed" || txlog() == "begin,perform-ok,commit-failed"
 
 //@ func (*SqliteStoreWorker).readPromises
-//@ props C16 C17 C02
+//@ props C16 C17 C02 C20
 //@ nopanic C13
 //@ ghostdb store
 //@ requires cmd != nil
@@ -264,7 +264,7 @@ package sqlite
 //@ ensures err == nil ==> result != nil
 
 //@ func (*SqliteStoreWorker).searchPromises
-//@ props C16 C17 C02
+//@ props C16 C17 C02 C20
 //@ nopanic C13
 //@ ghostdb store
 //@ requires cmd != nil
@@ -275,7 +275,7 @@ package sqlite
 //@ ensures err == nil ==> result != nil
 
 //@ func (*SqliteStoreWorker).readSchedules
-//@ props C16 C17 C02
+//@ props C16 C17 C02 C20
 //@ nopanic C13
 //@ ghostdb store
 //@ requires cmd != nil
@@ -283,7 +283,7 @@ package sqlite
 //@ ensures err == nil ==> result != nil
 
 //@ func (*SqliteStoreWorker).searchSchedules
-//@ props C16 C17 C02
+//@ props C16 C17 C02 C20
 //@ nopanic C13
 //@ ghostdb store
 //@ requires cmd != nil
@@ -293,7 +293,7 @@ package sqlite
 //@ ensures err == nil ==> result != nil
 
 //@ func (*SqliteStoreWorker).readTasks
-//@ props C16 C17 C02
+//@ props C16 C17 C02 C20
 //@ nopanic C13
 //@ ghostdb store
 //@ requires cmd != nil
@@ -302,7 +302,7 @@ package sqlite
 //@ ensures err == nil ==> result != nil
 
 //@ func (*SqliteStoreWorker).readEnqueueableTasks
-//@ props C16 C17 C02
+//@ props C16 C17 C02 C20
 //@ nopanic C13
 //@ ghostdb store
 //@ requires cmd != nil
